@@ -51,6 +51,23 @@ class ulist(list):
 
     def copy(self):
         return type(self)(self, unique = True) 
+
+    ## the list's own in-place ways of adding elements keep the members unique too
+    def append(self, value):
+        if value not in self:
+            super(ulist, self).append(value)
+
+    def extend(self, values):
+        for value in values:
+            self.append(value)
+
+    def insert(self, index, value):
+        if value not in self:
+            super(ulist, self).insert(index, value)
+
+    def __iadd__(self, other):
+        self.extend(other if is_list(other) else [other])
+        return self
     
     def __and__(self, other):
         if is_list(other):
